@@ -41,6 +41,7 @@ type Contract struct {
 	Extern    bool // trusted: never verified, only used at call sites
 	Pure      bool
 	Inline    bool
+	NoMapRange bool // syntactic obligation: the function does not iterate over a map
 	Getter    bool // result is a function of receiver and arguments only; no effects (trusted)
 	Preserves []string // type names whose objects keep their content (used with an unspecified/heap footprint)
 	Safe      bool
@@ -387,7 +388,7 @@ func (p *parser) postfix(e SExpr) SExpr {
 // contract file parsing
 
 var clauseKeywords = map[string]bool{"requires": true, "assumes": true, "ensures": true, "lemma": true, "modifies": true, "loop": true, "at": true,
-	"safe": true, "pure": true, "inline": true, "getter": true, "preserves": true, "end": true, "let": true, "props": true, "trusted": true}
+	"safe": true, "pure": true, "inline": true, "getter": true, "preserves": true, "no-map-range": true, "end": true, "let": true, "props": true, "trusted": true}
 
 // parseContractFile reads every //@ line of a file.
 func (p *Prog) parseContractFile(file string) error {
@@ -601,6 +602,8 @@ func (ct *Contract) addClause(txt, file string, line int) error {
 		ct.HasMod = true
 	case "inline":
 		ct.Inline = true
+	case "no-map-range":
+		ct.NoMapRange = true
 	case "getter":
 		ct.Getter = true
 		ct.HasMod = true
